@@ -174,6 +174,9 @@ class GroupValidator:
         """
         duration_issues = []
         for top_tag, group in hed_string_obj.find_top_level_tags(anchor_tags=DefTagNames.DURATION_KEYS):
+            # Before 8.2.0 Duration and Delay are ordinary value tags (no topLevelTagGroup): no group rules apply
+            if not top_tag.base_tag_has_attribute(HedKey.TopLevelTagGroup):
+                continue
             top_level_tags = [tag.short_base_tag for tag in group.get_all_tags()
                               if tag.base_tag_has_attribute(HedKey.TopLevelTagGroup)]
             # Skip onset/inset/offset
